@@ -150,7 +150,7 @@ def param_terms(tier: str):
         for u in operands:
             out.append(Pow(u, C(c)))
             out.append(Pow(C(abs(c) + 0.5), Mul(C(c), u)))
-    small = (2, 3, 5, 9) if tier != "thorough" else (2, 3, 4, 5, 6, 9, 15)
+    small = (2, 3, 4, 5, 6, 10) if tier != "thorough" else (2, 3, 4, 5, 6, 9, 10, 15)
     for n in small:
         for m in small:
             out.append(Root(Root(x, n), m))
